@@ -20,6 +20,8 @@ fn ops_for(k: u64) -> Vec<Op> {
         2 => vec![make_op("BeginText", &[], 1.0), Op::TextFont { name: "F1".into(), size: 12.0 }, make_op("TextDraw", &[1], 1.0), make_op("EndText", &[], 1.0)],
         _ => vec![Op::GraphicsState { name: "GS1".into() }, make_op("Rect", &[2, 3], 1.0), make_op("CurveTo", &[2, 3, 3], 1.0), make_op("Close", &[], 1.0), make_op("FillAndStroke", &[1], 1.0),
                   make_op("MoveTo", &[3], 1.0), make_op("CurveTo", &[3, 2, 2], 1.0), make_op("CurveTo", &[1, 2, 3], 1.0), make_op("Leading", &[-2], 1.0), make_op("MoveText", &[1, 2], 1.0),
+                  // a leading equal to the move upwards (the TD shorthand stands for the opposite sign only)
+                  make_op("Leading", &[2], 1.0), make_op("MoveText", &[1, 2], 1.0),
                   // a closed subpath followed by a curve whose first control point is the subpath's start
                   make_op("MoveTo", &[2], 1.0), make_op("LineTo", &[3], 1.0), make_op("Close", &[], 1.0), make_op("CurveTo", &[2, 3, 3], 1.0),
                   make_op("MoveTo", &[3], 1.0), make_op("LineTo", &[2], 1.0), make_op("Close", &[], 1.0), make_op("Stroke", &[], 1.0), make_op("CurveTo", &[3, 2, 2], 1.0), make_op("Stroke", &[], 1.0),
